@@ -296,10 +296,11 @@ func (g *gen) query(t *rapid.T) qref.Query {
 	return q
 }
 
-func runCase(t *rapid.T, c *ev.Case)      { runCaseMode(t, c, false) }
-func runDenseCase(t *rapid.T, c *ev.Case) { runCaseMode(t, c, true) }
+func runCase(t *rapid.T, c *ev.Case)      { runCaseMode(t, c, false, false) }
+func runDenseCase(t *rapid.T, c *ev.Case) { runCaseMode(t, c, true, false) }
+func runLayerCase(t *rapid.T, c *ev.Case) { runCaseMode(t, c, false, true) }
 
-func runCaseMode(t *rapid.T, c *ev.Case, dense bool) {
+func runCaseMode(t *rapid.T, c *ev.Case, dense, layers bool) {
 	pt := rapid.SampledFrom([]string{"1", "4"}).Draw(t, "ptnum")
 	w := &world{c: c}
 	w.fail = func(format string, a ...any) {
@@ -405,6 +406,89 @@ func runCaseMode(t *rapid.T, c *ev.Case, dense bool) {
 			c.Sample(map[string]any{"pair_shapes": keys[:min(len(keys), 6)], "some_aggregates": qs})
 		}
 	}
+	if layers {
+		// the same cells rewritten layer by layer (ordered file(s) <- out-of-order file(s) <- memtable), series advancing at different
+		// speeds: aggregates evaluated over rows (hint / bucket / filter) have to fold the layers exactly as the plain select does
+		g.noOverwrite, w.noOverwrite = false, false
+		nser := rapid.IntRange(2, 4).Draw(t, "nser")
+		span := rapid.IntRange(6, 16).Draw(t, "span")
+		layer := func(label string, only, from, to, density int) []hist.PointJ {
+			g.request++
+			var ps []hist.PointJ
+			for s := 0; s < nser; s++ {
+				if only >= 0 && s != only {
+					continue
+				}
+				for k := from; k < to; k++ {
+					if rapid.IntRange(0, 9).Draw(t, label+"skip") >= density && !(label == "base" && k == from) {
+						continue
+					}
+					p := hist.PointJ{Mst: mst, Tags: tagSets[s], T: k, Fields: map[string]string{}}
+					mask := rapid.SampledFrom([]int{15, 15, 4, 2, 6, 12, 1, 8}).Draw(t, "fieldmask")
+					for j, fn := range hist.FieldNames {
+						if mask&(1<<j) == 0 {
+							continue
+						}
+						v := rapid.IntRange(-40, 40).Draw(t, "val")
+						switch fn {
+						case "i":
+							p.Fields[fn] = fmt.Sprint(v)
+						case "f":
+							p.Fields[fn] = fmt.Sprintf("%g", float64(v)/4)
+						case "s":
+							p.Fields[fn] = fmt.Sprintf("v%d", v)
+						default:
+							p.Fields[fn] = fmt.Sprint(v%2 == 0)
+						}
+					}
+					g.times[p.T] = true
+					ps = append(ps, p)
+				}
+			}
+			return ps
+		}
+		put := func(ps []hist.PointJ, flush bool, cls string) {
+			if len(ps) == 0 {
+				return
+			}
+			w.exec(Op{Kind: "write", Points: ps})
+			if flush {
+				w.exec(Op{Kind: "flush"})
+			}
+			c.Class(cls)
+		}
+		lo := rapid.IntRange(0, span/2).Draw(t, "orderedFrom")
+		short := rapid.IntRange(0, nser-1).Draw(t, "shortSeries")
+		cut := rapid.IntRange(lo+1, span).Draw(t, "shortUntil")
+		var base []hist.PointJ
+		for sidx := 0; sidx < nser; sidx++ {
+			hi := span + 4
+			if sidx == short {
+				hi = cut
+			}
+			base = append(base, layer("base", sidx, lo, hi, 8)...)
+		}
+		put(base, true, "layer:ordered-file")
+		put(layer("cont", short, cut, span+4, 9), true, "layer:second-ordered-file-continuing-one-series")
+		for k := 0; k < rapid.IntRange(1, 2).Draw(t, "nooo"); k++ {
+			put(layer("ooo", -1, 0, span, 5), true, "layer:out-of-order-file")
+		}
+		if rapid.IntRange(0, 3).Draw(t, "mem") > 0 {
+			put(layer("mem", -1, 0, span, 4), false, "layer:memtable-over-out-of-order")
+		}
+		pairs(t, rapid.IntRange(5, 9).Draw(t, "ql1"))
+		if rapid.Bool().Draw(t, "more") {
+			put(layer("ooo2", -1, 0, span, 3), rapid.Bool().Draw(t, "flush2"), "layer:second-rewrite")
+			pairs(t, rapid.IntRange(3, 6).Draw(t, "ql2"))
+		}
+		if rapid.IntRange(0, 2).Draw(t, "reorg") == 0 {
+			w.exec(Op{Kind: "flush"})
+			w.exec(Op{Kind: "reorg", Cmd: rapid.SampledFrom([]string{"merge", "all"}).Draw(t, "cmd")})
+			pairs(t, rapid.IntRange(3, 5).Draw(t, "ql3"))
+		}
+		finish()
+		return
+	}
 	if dense {
 		// chunks of several segments: 2-3 flushed generations of consecutive rows per series, the last one optionally left in the
 		// memtable, optionally late rows and a merge / compaction pass; no (series,time) is written twice
@@ -452,6 +536,9 @@ func runCaseMode(t *rapid.T, c *ev.Case, dense bool) {
 	finish()
 }
 
+func TestOverwriteLayers(t *testing.T) {
+	rapid.Check(t, ev.Prop(prop, "overwrite_layers", runLayerCase))
+}
 func TestDenseSegments(t *testing.T)  { rapid.Check(t, ev.Prop(prop, "dense_segments", runDenseCase)) }
 func TestAggregatePairs(t *testing.T) { rapid.Check(t, ev.Prop(prop, "aggregate_pairs", runCase)) }
 
